@@ -1,6 +1,7 @@
 """C28 - ward / xward / REI equivalents returned by get_equivalent reproduce the operating point of the retained (internal +
 boundary) buses and leave the original network unchanged."""
 import copy
+import itertools
 import sys
 
 import numpy as np
@@ -19,7 +20,7 @@ READY = True
 LEVEL = "exploration"
 TECHNIQUE = ("runtime monitoring: every equivalent returned by get_equivalent for a seeded random network split is re-solved with runpp "
              "and judged against the operating point of the original network; deep snapshot of the original before/after")
-CASES = {"quick": 280, "thorough": 8000}
+CASES = {"quick": 256, "thorough": 8000}
 BUDGET = {"quick": 75, "thorough": 1500}
 CASE_TIMEOUT = 180
 FLOORS = {"quick": {"nontrivial": 130, "tags": {"returned:ward": 120, "returned:xward": 100, "returned:rei": 120, "ext_gen": 100,
@@ -291,7 +292,7 @@ def explain(net, eq, o, internal, boundary, external, res0, out):
         if ((~np.isfinite(x) | (x > 1e100)) & (b < 1e-9)).any():
             return ["xward_zero_susceptance_inf_reactance"]
     cand = mechanisms(net, eq, o, internal, boundary)
-    trials = [[c] for c in cand] + ([cand] if len(cand) > 1 else [])
+    trials = [list(t) for k in range(1, len(cand) + 1) for t in itertools.combinations(cand, k)]   # small subsets first, order kept
     last = out
     for trial in trials:
         n2, more = copy.deepcopy(net), []
